@@ -12,6 +12,7 @@ Canonical forms (nothing hash-ordered, no floats):
   builder   (ok rows cols (agent ... in dictionary order)) | (err kind)
   reset     (ok ((id (r c)) ... agents that have an initial position, dictionary order)) | (err kind)
 """
+import atexit
 import itertools
 import json
 import locale
@@ -196,6 +197,18 @@ def make_text(cells, rows, cols, variant):
     raise ValueError(variant)
 
 
+_LAYOUT_PATH = []
+
+
+def _layout_path():
+    if not _LAYOUT_PATH:
+        fd, path = tempfile.mkstemp(prefix="c18_layout_", suffix=".txt")
+        os.close(fd)
+        _LAYOUT_PATH.append(path)
+        atexit.register(lambda: os.path.exists(path) and os.unlink(path))
+    return _LAYOUT_PATH[0]
+
+
 def run_real(desc):
     """run the four real builders and reset; return (request parts, canonical outcomes)"""
     from abmarl.sim.gridworld.grid import Grid
@@ -229,6 +242,9 @@ def run_real(desc):
                 a.initial_position = np.array([r, c])
                 wgrid.place(a, (r, c))
             warm.append(Sim.build_sim_from_grid(wgrid))
+            with open(_layout_path(), "w", newline="") as f:     # the same path held this other layout before
+                f.write(make_text(wcells, wr, wc, "plain"))
+            warm.append(Sim.build_sim_from_file(_layout_path(), dict(registry)))
         except Exception:  # noqa: BLE001
             warm = []                                       # not a legal warm-up layout: no history then
     warm_before = [sim_canon(w) for w in warm]
@@ -250,16 +266,15 @@ def run_real(desc):
     except Exception as ex:  # noqa: BLE001
         out_a = ["err", err_kind(ex, "array")]
     # 2. file
-    fd, path = tempfile.mkstemp(prefix="c18_", suffix=".txt")
+    # ONE path per process, rewritten for every case (a history: the file at a path changes between builds; what a
+    # builder remembers about a path from an earlier build must not matter)
+    path = _layout_path()
+    with open(path, "w", newline="") as f:              # default encoding: the one the builder reads with
+        f.write(text)
     try:
-        with os.fdopen(fd, "w", newline="") as f:       # default encoding: the one the builder reads with
-            f.write(text)
-        try:
-            out_f = sim_canon(Sim.build_sim_from_file(path, dict(registry), **kw()))
-        except Exception as ex:  # noqa: BLE001
-            out_f = ["err", err_kind(ex, "file")]
-    finally:
-        os.unlink(path)
+        out_f = sim_canon(Sim.build_sim_from_file(path, dict(registry), **kw()))
+    except Exception as ex:  # noqa: BLE001
+        out_f = ["err", err_kind(ex, "file")]
     # 3. grid holding the layout's agents
     grid = Grid(rows, cols)
     grid.reset()
